@@ -109,6 +109,21 @@ def _case(draw):
     for _ in range(draw(st.integers(1, 3))):
         fn = draw(st.sampled_from(DS_FUNCS))
         ops.append({"fn": fn, "opts": draw(_opts(fn, names, False, fam["base"]))})
+    if len(fam["masters"][0]["loc"]) == 1 and F.chance(draw, 1, 5):
+        # a mixed glyph (own contour + component) used as a component by another composite, with a sparse layer master, and a filter that edits component
+        # bases while resolving them through the instantiator's interpolated layers - the first thing run on the glyph sets. (The interpolated layer
+        # hands out the source's own glyph object for a glyph with contours; an outline-less one is falsy and gets re-instantiated.)
+        tri = [[0, 0, "line"], [90, 0, "line"], [40, 70, "line"]]
+        fam["base"]["glyphs"] += [
+            {"name": "pA", "width": 500, "unicodes": [], "contours": [tri], "anchors": [{"name": "top", "x": 40, "y": 700}, {"name": "bottom", "x": 40, "y": 0}]},
+            {"name": "pin", "width": 500, "unicodes": [], "contours": [[[0, 7, "line"], [-6, 0, "line"], [12, 0, "line"]]], "components": [{"base": "pA", "t": [1, 0, 0, 1, 20, 0]}]},
+            {"name": "pout", "width": 500, "unicodes": [], "components": [{"base": "pin", "t": [1, 0, 0, 1, 0, 5]}]},
+        ]
+        if "glyphOrder" in fam["base"]:
+            fam["base"]["glyphOrder"] = list(fam["base"]["glyphOrder"]) + ["pA", "pin", "pout"]
+        fam["sparse"] = {"k": 4, "loc": {"Weight": draw(st.sampled_from([300, 600, 850]))}, "names": sorted({"pin"} | set((fam.get("sparse") or {}).get("names", [])))}
+        ops[0]["opts"]["filters"] = draw(st.sampled_from([["PropagateAnchorsFilter:pre", "..."], ["PropagateAnchorsFilter:pre"], ["PropagateAnchorsFilter:pre", "..."], ["FlattenComponentsFilter:pre", "..."]]))
+        ops[0]["opts"].pop("skipExportGlyphs", None)
     return {"kind": "family", "fam": fam, "module": module, "ops": ops}
 
 
@@ -282,6 +297,8 @@ def run_case(case, ctx):
         ctx.label("layers")
     if case["kind"] == "family" and case["fam"].get("sparse"):
         ctx.label("sparse-master")
+        if any(":pre" in f for op in case["ops"] for f in op["opts"].get("filters", [])):
+            ctx.label("sparse-master+pre-filter")
     nondefault = any(op["opts"] for op in case["ops"])
     ctx.nontrivial(nondefault or any(k in lib for k in ("com.nagwa.MATHPlugin.constants", "com.github.googlei18n.ufo2ft.filters", "com.github.googlei18n.ufo2ft.featureWriters")) or bool(src.get("layers")))
 
